@@ -98,7 +98,7 @@ func modeName(unsafe bool) string {
 
 // ---------------------------------------------------------------- generators
 
-var valOpts = gen.ValOpts{Null: true, Unknown: true, ExtremeNums: true, Long: 24}
+var valOpts = gen.ValOpts{Null: true, Unknown: true, Marks: true, ExtremeNums: true, Long: 24}
 
 func clone(a spec.T) spec.T {
 	b, _ := json.Marshal(a)
